@@ -577,8 +577,7 @@ Proof. vm_compute; reflexivity. Qed.
 
 Lemma the_spec_good : spec_good the_spec.
 Proof.
-  repeat split;
-    [ exact the_spec_shape_c | exact the_spec_shape_p | exact the_spec_tags_ok | exact the_spec_allow_ok ].
+  exact (conj the_spec_shape_c (conj the_spec_shape_p (conj the_spec_tags_ok the_spec_allow_ok))).
 Qed.
 '''
     write_if_changed(os.path.join(gen_dir, 'C02HashSpec_ok.v'), ok)
